@@ -159,6 +159,40 @@ theorem same_crc_field_same_checksum (b b' : Bytes) (stored : BitVec 32)
     computeCRC32 b = computeCRC32 b' :=
   (suffix_never_masks b b' (be32 stored)).mp (h.trans h'.symm)
 
+/-- for a fixed register the step is injective in the input byte (mod 256) -/
+theorem crcStep_byte_inj (c : BitVec 32) (x y : Nat) (h : crcStep c x = crcStep c y) : x % 256 = y % 256 := by
+  unfold crcStep crcTableEntry at h
+  have h1 := crcBits8_inj _ _ ((BitVec.xor_right_inj _).mp h)
+  have h2 := shl24_inj _ _ (idx_lt _) (idx_lt _) h1
+  have h3 := congrArg BitVec.toNat h2
+  simp only [BitVec.toNat_and, BitVec.toNat_xor, BitVec.toNat_ofNat] at h3
+  have h255 : 255 % 2 ^ 32 = 2 ^ 8 - 1 := by decide
+  rw [h255, Nat.and_two_pow_sub_one_eq_mod, Nat.and_two_pow_sub_one_eq_mod, Nat.xor_mod_two_pow,
+    Nat.xor_mod_two_pow (b := y % 2 ^ 32)] at h3
+  have h4 := congrArg (fun v => (c >>> 24).toNat % 2 ^ 8 ^^^ v) h3
+  simp only [← Nat.xor_assoc, Nat.xor_self, Nat.zero_xor] at h4
+  omega
+
+/-- **replacing one byte by a different one always changes the checksum**, wherever the byte sits and whatever
+precedes and follows it -/
+theorem byte_substitution_detected (p s : Bytes) (x y : Nat) (hxy : x % 256 ≠ y % 256) :
+    computeCRC32 (p ++ x :: s) ≠ computeCRC32 (p ++ y :: s) := by
+  intro h
+  unfold computeCRC32 at h
+  rw [C10.update_append, C10.update_append] at h
+  simp only [updateCRC32, List.foldl_cons] at h
+  exact hxy (crcStep_byte_inj _ x y (update_inj _ _ s h))
+
+/-- so a section with residue 0 in which any single byte — header, body or CRC field — is replaced by a different
+value is rejected -/
+theorem byte_substitution_rejected (p s : Bytes) (x y : Nat) (hxy : x % 256 ≠ y % 256)
+    (hvalid : computeCRC32 (p ++ x :: s) = 0#32) : computeCRC32 (p ++ y :: s) ≠ 0#32 := by
+  intro h
+  exact byte_substitution_detected p s x y hxy (hvalid.trans h.symm)
+
+example : computeCRC32 ([0x12] ++ 0x34 :: be32 (computeCRC32 [0x12, 0x34])) = 0#32 ∧ 0x34 % 256 ≠ 0xb4 % 256 := by
+  decide +kernel
+
 -- the premises are satisfiable and the conclusion is not trivial: a valid 2+4-byte unit, a different prefix
 example : computeCRC32 ([0x12, 0x34] ++ be32 (computeCRC32 [0x12, 0x34])) = 0#32 ∧
     computeCRC32 [0x12, 0x35, 0x00] ≠ computeCRC32 [0x12, 0x34] := by decide +kernel
